@@ -559,6 +559,109 @@ func ruleMedianReadOnly(w *World, r *Report, pfx string) {
 		okShift = from(stores[0]) == 1 && from(stores[1]) == 2 && stores[2] == ssa.Value(add.Params[1])
 	}
 	r.Check(okShift, rule, "medianWindow.Add", w.pos(add.Pos()), "FIFO shift by one", "Add does not evict the oldest sample")
+	// Value is the median: the middle element of the sorted copy
+	{
+		var sortCall *ssa.Call
+		cmps := 0
+		for _, b := range fn.Blocks {
+			for _, in := range b.Instrs {
+				if c, ok := in.(*ssa.Call); ok {
+					switch staticCalleeName(&c.Call) {
+					case "sort.Sort", "sort.Stable", "sort.Float64s", "slices.Sort":
+						sortCall = c
+					}
+				}
+				if bin, ok := in.(*ssa.BinOp); ok {
+					switch bin.Op {
+					case token.LSS, token.LEQ, token.GTR, token.GEQ:
+						cmps++
+					}
+				}
+			}
+		}
+		bad := ""
+		switch {
+		case sortCall == nil && cmps == 0:
+			bad = "Value() neither sorts its copy nor compares the samples: what it returns is not the median"
+		case sortCall != nil:
+			for _, b := range fn.Blocks {
+				ret, ok := b.Instrs[len(b.Instrs)-1].(*ssa.Return)
+				if !ok || len(ret.Results) != 1 {
+					continue
+				}
+				ld, ok := ret.Results[0].(*ssa.UnOp)
+				if !ok {
+					bad = "Value() does not return an element of the sorted copy"
+					continue
+				}
+				ia, ok := ld.X.(*ssa.IndexAddr)
+				if !ok {
+					bad = "Value() does not return an element of the sorted copy"
+					continue
+				}
+				n := int64(-1)
+				t := ia.X.Type()
+				if pt, ok := t.Underlying().(*types.Pointer); ok {
+					t = pt.Elem()
+				}
+				if at, ok := t.Underlying().(*types.Array); ok {
+					n = at.Len()
+				}
+				if k, ok := constInt(ia.Index); !ok || n < 0 || k != n/2 {
+					bad = "Value() returns an element other than the middle one of the sorted copy (the smallest or largest sample instead of the median)"
+				}
+				if ia.X == recv {
+					bad = "Value() returns an element of the unsorted window"
+				}
+			}
+		}
+		r.Check(bad == "", rule, "medianWindow.Value result", w.pos(fn.Pos()), "middle element of the sorted copy", bad)
+	}
+	// the order sort.Sort works with: Swap exchanges two samples, Less compares them
+	if sw := w.Func("decor.(*medianWindow).Swap"); sw != nil && len(sw.Params) == 3 {
+		idxOf := func(v ssa.Value) ssa.Value {
+			if ia, ok := v.(*ssa.IndexAddr); ok {
+				return ia.Index
+			}
+			return nil
+		}
+		pairs := map[[2]ssa.Value]bool{}
+		for _, b := range sw.Blocks {
+			for _, in := range b.Instrs {
+				if st, ok := in.(*ssa.Store); ok {
+					if ld, ok := st.Val.(*ssa.UnOp); ok {
+						pairs[[2]ssa.Value{idxOf(st.Addr), idxOf(ld.X)}] = true
+					}
+				}
+			}
+		}
+		i, j := ssa.Value(sw.Params[1]), ssa.Value(sw.Params[2])
+		r.Check(pairs[[2]ssa.Value{i, j}] && pairs[[2]ssa.Value{j, i}], rule, "medianWindow.Swap", w.pos(sw.Pos()), "exchanges s[i] and s[j]", "Swap does not exchange the two samples: sorting the copy leaves it unsorted (or duplicates a sample)")
+	}
+	if ls := w.Func("decor.(*medianWindow).Less"); ls != nil && len(ls.Params) == 3 {
+		ok := false
+		for _, b := range ls.Blocks {
+			ret, isRet := b.Instrs[len(b.Instrs)-1].(*ssa.Return)
+			if !isRet || len(ret.Results) != 1 {
+				continue
+			}
+			if bin, isBin := ret.Results[0].(*ssa.BinOp); isBin {
+				switch bin.Op {
+				case token.LSS, token.LEQ, token.GTR, token.GEQ: // the median of the window is the same for the ascending and the descending order
+					lx, okx := bin.X.(*ssa.UnOp)
+					ly, oky := bin.Y.(*ssa.UnOp)
+					if okx && oky {
+						ax, _ := lx.X.(*ssa.IndexAddr)
+						ay, _ := ly.X.(*ssa.IndexAddr)
+						if ax != nil && ay != nil && ax.Index != ay.Index && (ax.Index == ssa.Value(ls.Params[1]) || ax.Index == ssa.Value(ls.Params[2])) && (ay.Index == ssa.Value(ls.Params[1]) || ay.Index == ssa.Value(ls.Params[2])) {
+							ok = true
+						}
+					}
+				}
+			}
+		}
+		r.Check(ok, rule, "medianWindow.Less", w.pos(ls.Pos()), "orders s[i] against s[j]", "Less does not compare the two samples it is asked about")
+	}
 }
 
 // ruleBarWait (C11/C14): Bar.Wait blocks on the ready channel, which is closed only after the
@@ -808,4 +911,78 @@ func ruleNoCallerAlias(w *World, r *Report, pfx string) {
 		}
 	}
 	r.Floor(rule, 1, "the decorator groups set by PrependDecorators / AppendDecorators")
+}
+
+// ruleLocksReleased (L-UNLOCK): every module function that locks a mutex releases it on every returning
+// path (an Unlock after the Lock, or a deferred Unlock). The only lock of the library guards the
+// thread-safe moving average, which the bar goroutine calls from inside EwmaIncr*/EwmaSetCurrent
+// operations (and waits for): a path that returns with the lock held wedges the next sample, with
+// it the bar goroutine, its getters, Bar.Wait and Progress.Wait.
+func ruleLocksReleased(w *World, r *Report, rule string) {
+	isMutexCall := func(c *ssa.CallCommon, names ...string) bool {
+		sc := c.StaticCallee()
+		if sc == nil || sc.Signature.Recv() == nil {
+			return false
+		}
+		switch typeName(sc.Signature.Recv().Type()) {
+		case "sync.Mutex", "sync.RWMutex":
+		default:
+			return false
+		}
+		for _, n := range names {
+			if sc.Name() == n {
+				return true
+			}
+		}
+		return false
+	}
+	n := 0
+	for _, fn := range w.ModFns {
+		if fn.Synthetic != "" {
+			continue
+		}
+		locks := false
+		for _, b := range fn.Blocks {
+			for _, in := range b.Instrs {
+				if c, ok := in.(ssa.CallInstruction); ok && isMutexCall(c.Common(), "Lock", "RLock") {
+					locks = true
+				}
+			}
+		}
+		if !locks {
+			continue
+		}
+		n++
+		bad := ""
+		_, over := w.enumPaths(fn, pathOpts{Inline: func(ssa.CallInstruction, *ssa.Function) bool { return false }}, func(p *Path) {
+			if p.Exit != "return" || bad != "" {
+				return
+			}
+			held := 0
+			deferred := false
+			for _, ev := range p.Events {
+				switch x := ev.In.(type) {
+				case *ssa.Call:
+					if isMutexCall(&x.Call, "Lock", "RLock") {
+						held++
+					} else if isMutexCall(&x.Call, "Unlock", "RUnlock") {
+						held--
+					}
+				case *ssa.Defer:
+					if isMutexCall(&x.Call, "Unlock", "RUnlock") {
+						deferred = true
+					}
+				}
+			}
+			if held > 0 && !deferred {
+				bad = "a path returns with the lock held (" + pathExitPos(w, p) + ")"
+			}
+		})
+		if over {
+			r.Undecided(rule, "locks in "+fnShort(fn), w.pos(fn.Pos()), "path cap reached")
+			continue
+		}
+		r.Check(bad == "", rule, "locks in "+fnShort(fn), w.pos(fn.Pos()), "every returning path releases the lock it took", bad)
+	}
+	r.Floor(rule, 1, "functions that take a lock")
 }
